@@ -4,7 +4,7 @@
 # applied -- without touching /repo, /verif/.work or /verif/evidence.  Prints DETECTED / MISSED / INFRA.
 set -u
 seed=$1; prop=$2; tier=${3:-quick}
-root=/tmp/seedrun/$seed-$prop
+root=/tmp/seedrun/$seed-$prop-$$
 rm -rf $root; mkdir -p $root
 git -C /repo worktree add -q --detach $root/repo HEAD || exit 2
 ( cd $root/repo && git apply /verif/seeded/$seed/patch.diff ) || { echo "patch does not apply"; git -C /repo worktree remove --force $root/repo; exit 2; }
